@@ -16,6 +16,7 @@ def run(prog, chk):
     blocking_reader_table(prog, chk)
     queue_order(prog, chk)
     partial_request_rule(prog, chk)
+    blocking_send_table(prog, chk)
     _run(prog, chk)
 
 
@@ -453,3 +454,71 @@ def partial_request_rule(prog, chk):
                "a path from taking the head request to its removal from the send queue passes neither 'all sent', 'nothing sent' nor closeSocket(): a "
                "fragment already written stays on the open connection and the next request follows it", loc=fn.loc(fn.elem_line(rb, ri)), fn=fn,
                path=None if bad is None else path_lines(fn, bad))
+
+
+def blocking_send_table(prog, chk):
+    """The blocking TCP client writes the request with send() until all of it is accepted.  readResponse (net_tcp.c) is evaluated with
+    send() scripted to accept the request in chunks: every call must offer exactly the part not yet accepted - (request + accepted,
+    length - accepted) - the loop ends when the whole request has been accepted and only then the reply is read; a failing send
+    ends the call with an error and nothing further is written."""
+    from ksirules.bufinterp import BufInterp
+    from ksirules.interp import TOP, Ptr, succeed_model
+    chk.rule("C14.send", "blocking client: the request reaches the socket whole and in order whatever send() accepts per call "
+                         "(decision table over send results)", floor=8)
+    fn = prog.fn("readResponse", "net_tcp.c")
+    hp = fn.params[0]["n"]
+    IPPROTO_TCP = 6
+    L = 88
+    for chunks in ([88], [10, 78], [22, 44, 22], [1, 1, 86], [87, 1], [44, 44], [30, 30, 28], [10, -1], [-1]):
+        it = iter(chunks)
+        calls = []
+        after = []
+
+        def send(I, p, node, args):
+            calls.append((I.as_off(args[1]), args[2]))
+            return next(it, TOP)
+
+        def sockread(I, p, node, args):
+            after.append(len(calls))
+            a3 = strip(node["a"][3])
+            I.write(p, lvalue_key(a3["e"], I.fn) if isinstance(a3, dict) and a3.get("k") == "un" else "count", 20)
+            return 0
+
+        def gai(I, p, node, args):
+            a3 = strip(node["a"][3])
+            I.write(p, lvalue_key(a3["e"], I.fn), Ptr("AI"))
+            return 0
+        ov = {"send": send, "KSI_FTLV_socketRead": sockread, "getaddrinfo": gai, "socket": lambda I, p, n, a: 5, "setsockopt": lambda I, p, n, a: 0,
+              "connect": lambda I, p, n, a: 0, "close": lambda I, p, n, a: 0, "freeaddrinfo": lambda I, p, n, a: TOP, "memset": lambda I, p, n, a: a[0],
+              "memcpy": lambda I, p, n, a: a[0], "KSI_malloc": lambda I, p, n, a: Ptr("RESP"), "__errno_location": lambda I, p, n, a: Ptr("ERRNO"),
+              "gai_strerror": lambda I, p, n, a: Ptr("s"), "KSI_snprintf": lambda I, p, n, a: 0}
+        inputs = {hp: Ptr("H"), "H->ctx": Ptr("ctx"), "H->implCtx": Ptr("TCP"), "H->client": Ptr("CL"), "CL->impl": Ptr("IMPL"), "TCP->port": 1234, "TCP->host": Ptr("host"),
+                  "IMPL->transferTimeoutSeconds": 5, "H->request": Ptr("REQ"), "H->request_length": L, "AI->ai_protocol": IPPROTO_TCP, "AI->ai_next": 0,
+                  "AI->ai_family": 2, "AI->ai_socktype": 1, "AI->ai_addr": Ptr("addr"), "AI->ai_addrlen": 16, "*ERRNO": 104, "ERRNO[0]": 104}
+        I = BufInterp(fn, {"REQ": L, "ERRNO": 1}, inputs=inputs, call_model=succeed_model(prog, ov), on_unknown="stop", prog=prog, loop_bound=len(chunks) + 4)
+        paths = I.run()
+        chk.paths += len(paths)
+        inst = "readResponse[request of %d octets, send accepts %s]" % (L, chunks)
+        if len(paths) != 1 or (paths[0].undetermined and paths[0].reason != "bound"):
+            raise AnalysisBroken("net_tcp.c readResponse: evaluation not determined for %s: %s" % (inst, [q.undetermined[:1] for q in paths]))
+        q = paths[0]
+        want = []
+        pos = 0
+        failed = False
+        for c in chunks:
+            want.append((pos, L - pos))
+            if c < 0:
+                failed = True
+                break
+            pos += c
+        got = [(o.off if o is not None and o.base == "REQ" else None, n) for o, n in calls]
+        if q.reason == "bound":
+            ok = False
+            what = "the send loop does not end: send calls %s" % got[:6]
+        elif failed:
+            ok = got == want and not after and q.ret not in (0, None, TOP)
+            what = "expected send(offset, length) = %s, then an error without reading a reply; source: send calls %s, reply read after %s sends, status %s" % (want, got, after, q.ret)
+        else:
+            ok = got == want and after == [len(want)] and q.ret == 0
+            what = "expected send(offset, length) = %s and the reply read after the last one; source: send calls %s, reply read after %s sends, status %s" % (want, got, after, q.ret)
+        chk.ob("C14.send", inst, ok, what, loc=fn.loc(), fn=fn, nontrivial=len(chunks) > 1)
